@@ -13,7 +13,7 @@ __CPROVER_ensures(g_pcalls2 == 1 && 0 <= g_pret2 && g_pret2 <= 7 && (int)__CPROV
 HandledEnum api_process_event(fsm_t* self, event_t evt)
 __CPROVER_requires(__CPROVER_is_fresh(self, sizeof(*self)) && EV_EQ(evt, g_evt) && g_pcalls2 == 0)
 __CPROVER_assigns(g_pcalls2, g_pret2)
-__CPROVER_ensures(g_pcalls2 == 1 && (int)__CPROVER_return_value == g_pret2)       /*@ob C06.process-event-returns-the-result-of-the-step */
+__CPROVER_ensures(g_pcalls2 == 1 && (int)__CPROVER_return_value == g_pret2)       /*@ob C06,C01.process-event-returns-the-result-of-the-step */
 ;
 #endif
 #if UNIT_QUEUE
